@@ -793,6 +793,20 @@ pub broadcast proof fn lemma_diags_trans<'i>(c: Seq<Event<'i>>, b: Seq<Event<'i>
 }
 pub proof fn lemma_grown_push<'i>(a: Seq<Event<'i>>, e: Event<'i>) ensures ev_grown(a.push(e), a), (e is Error || e is Warning) ==> only_diags(a.push(e), a)
 { assert(a.push(e).subrange(0, a.len() as int) =~= a); }
+/// C02: no metadata entry among the events queued at index >= from
+pub open spec fn no_meta_since<'i>(evs: Seq<Event<'i>>, from: int) -> bool { forall|k: int| from <= k < evs.len() ==> !((#[trigger] evs[k]) is Metadata) }
+pub proof fn lemma_no_meta_diags<'i>(new: Seq<Event<'i>>, old: Seq<Event<'i>>, from: int)
+    requires only_diags(new, old), no_meta_since(old, from), 0 <= from <= old.len()
+    ensures no_meta_since(new, from)
+{
+    assert forall|k: int| from <= k < new.len() implies !((#[trigger] new[k]) is Metadata) by {
+        if k < old.len() { assert(new.subrange(0, old.len() as int)[k] == new[k]); assert(!(old[k] is Metadata)); }
+    }
+}
+pub proof fn lemma_no_meta_push<'i>(a: Seq<Event<'i>>, e: Event<'i>, from: int)
+    requires no_meta_since(a, from), !(e is Metadata)
+    ensures no_meta_since(a.push(e), from)
+{}
 } // verus!
 } // mod parser_ev
 pub use crate::parser_ev::*;
@@ -1305,6 +1319,7 @@ broadcast use {crate::parser_ev::lemma_diags_trans, crate::parser_ev::lemma_grow
 /*@ fn src/parser/section.rs section
 tags C03 C04 C05 C07
 ret r
+attr #[verifier::spinoff_prover]
 spec:
     requires old(block).wf(), old(block).cur() == 0,
     ensures final(block).wf(), final(block).same(old(block)),
@@ -1358,6 +1373,7 @@ broadcast use {crate::parser_ev::lemma_diags_trans, crate::parser_ev::lemma_grow
 tags C03 C04 C05 C07
 ret r
 inline or_else 0
+attr #[verifier::spinoff_prover]
 spec:
     requires old(block).wf(), old(block).cur() == 0,
     ensures final(block).wf(), final(block).same(old(block)),
@@ -1398,6 +1414,7 @@ broadcast use {crate::parser_ev::lemma_diags_trans, crate::parser_ev::lemma_grow
 /*@ fn src/parser/text_block.rs parse_text_block
 tags C03 C04 C05
 inline and_then 0
+attr #[verifier::spinoff_prover]
 spec:
     requires old(bp).wf(),
     ensures final(bp).wf(), final(bp).same(old(bp)),
@@ -1408,6 +1425,7 @@ spec:
         final(bp).evs()[old(bp).evs().len() as int] matches Event::Start(BlockKind::Text),
         final(bp).evs().last() matches Event::End(BlockKind::Text),
         forall|k: int| old(bp).evs().len() < k < final(bp).evs().len() - 1 ==> (#[trigger] final(bp).evs()[k]) is Text,
+        no_meta_since(final(bp).evs(), old(bp).evs().len() as int),     // [C02]
 after `bp.event(Event::Start(BlockKind::Text));`:
     proof { lemma_grown_push(old(bp).evs(), Event::Start(BlockKind::Text)); }
 loop 0:
@@ -1601,6 +1619,7 @@ closure @ `|t| !matches!(t, T![%])` `TokenKind` ret `b: bool`:
 /*@ fn src/parser/quantity.rs parse_regular_quantity
 tags C03 C04 C07
 ret r
+attr #[verifier::spinoff_prover]
 spec:
     requires old(bp).wf(), old(bp).cur() == 0,
     ensures final(bp).wf(), final(bp).same(old(bp)), only_diags(final(bp).evs(), old(bp).evs()),
@@ -1618,6 +1637,7 @@ after `if let Some(sep) = bp.consume(T![%]) {`:
 tags C03 C04 C07 C02
 ret r
 inline or_else 0
+attr #[verifier::spinoff_prover]
 spec:
     requires old(bp).wf(), old(bp).cur() == 0,
     ensures final(bp).wf(), final(bp).same(old(bp)), only_diags(final(bp).evs(), old(bp).evs()),
@@ -1865,6 +1885,7 @@ closure @ `|t| t == T![')']` `TokenKind` ret `b: bool`:
 /*@ fn src/parser/step.rs modifiers
 tags C03 C05 C02
 ret r
+attr #[verifier::spinoff_prover]
 spec:
     requires old(bp).wf(),
     ensures final(bp).wf(), final(bp).same(old(bp)), final(bp).evs() == old(bp).evs(),
@@ -1945,6 +1966,7 @@ impl<'t> Body<'t> {
 tags C03 C04 C05 C07
 ret r
 inline or_else 0
+attr #[verifier::spinoff_prover]
 spec:
     requires old(bp).wf(),
     ensures final(bp).wf(), final(bp).same(old(bp)),
@@ -2000,6 +2022,7 @@ rewrite `modifiers |= new_m;` => `modifiers.insert(new_m);`
 enter:
     hide(toks_ok);
     proof { lemma_modifier_bits(); lemma_or_recipe(0, 0); }
+attr #[verifier::spinoff_prover]
 spec:
     requires old(bp).wf(), toks_ok(modifiers_tokens@), gbnd(modifiers_pos as int),
         mods_ok(modifiers_tokens@, 0, old(bp).ext().has(Extensions::INTERMEDIATE_PREPARATIONS)),    // [C03] established by modifiers()
@@ -2089,6 +2112,7 @@ pub open spec fn comp_at<'i>(ev: Event<'i>, a: int, b: int) -> bool {
 tags C03 C04 C05 C07
 ret r
 inline map 0
+attr #[verifier::spinoff_prover]
 spec:
     requires old(bp).wf(),
     ensures final(bp).wf(), final(bp).same(old(bp)), only_diags(final(bp).evs(), old(bp).evs()),
@@ -2104,6 +2128,7 @@ tags C03 C04 C05 C07
 ret r
 inline map 0
 inline map 2
+attr #[verifier::spinoff_prover]
 spec:
     requires old(bp).wf(),
     ensures final(bp).wf(), final(bp).same(old(bp)), only_diags(final(bp).evs(), old(bp).evs()),
@@ -2123,6 +2148,7 @@ tags C03 C04 C05 C06 C07 C02
 ret r
 inline map 0
 inline unwrap_or_else 0
+attr #[verifier::spinoff_prover]
 spec:
     requires old(bp).wf(),
     ensures final(bp).wf(), final(bp).same(old(bp)), only_diags(final(bp).evs(), old(bp).evs()),
@@ -2186,6 +2212,7 @@ spec:
     ensures final(bp).wf(), final(bp).same(old(bp)),
         final(bp).cur() == final(bp).toks().len(),     // [C03] [C05] every token is consumed (progress; finish() cannot panic)
         ev_grown(final(bp).evs(), old(bp).evs()),
+        no_meta_since(final(bp).evs(), old(bp).evs().len() as int),     // [C02] a step never produces a metadata entry
         // [C05] every token that can hold a letter or digit lies in the span of an event emitted by this call
         covered(final(bp).toks(), final(bp).toks().len() as int, final(bp).evs(), old(bp).evs().len() as int),    // [C05]
         // [C04] the located events of the step appear in source order, without overlapping, inside the block
@@ -2195,10 +2222,12 @@ enter:
 after `bp.event(Event::Start(BlockKind::Step));`:
     proof { lemma_grown_push(old(bp).evs(), Event::Start(BlockKind::Step)); }
     let ghost n0 = old(bp).evs().len() as int;
+    proof { lemma_no_meta_push(old(bp).evs(), Event::Start(BlockKind::Step), n0); }
     proof { assert(ev_ordered(bp.evs(), n0, bp.toks()[0].span.s(), bp.off())) by { assert(bp.evs()[n0] == Event::Start(BlockKind::Step)); } }
 loop 0:
         invariant bp.wf(), bp.same(old(bp)), ev_grown(bp.evs(), old(bp).evs()), n0 == old(bp).evs().len(), n0 < bp.evs().len(),
             covered(bp.toks(), bp.cur(), bp.evs(), n0),     // [C05]
+            no_meta_since(bp.evs(), n0),     // [C02]
             ev_ordered(bp.evs(), n0, bp.toks()[0].span.s(), bp.off()),     // [C04]
         decreases bp.toks().len() - bp.cur()
 before `let component = match bp.peek() {`:
@@ -2210,6 +2239,7 @@ before `if let Some(ev) = component {`:
             assert(only_diags(bp.evs(), pre.evs()));
             lemma_grown_trans(bp.evs(), pre.evs(), old(bp).evs());
             lemma_covered_grown(bp.toks(), pre.cur(), pre.evs(), bp.evs(), n0);
+            lemma_no_meta_diags(bp.evs(), pre.evs(), n0);
             lemma_ordered_grown(pre.evs(), bp.evs(), n0, bp.toks()[0].span.s(), pre.off());
         }
         let ghost mid = *bp;
@@ -2219,6 +2249,7 @@ after `bp.event(ev)`:
                 lemma_grown_trans(bp.evs(), mid.evs(), old(bp).evs());
                 reveal(toks_ok);
                 lemma_step_comp(bp.toks(), pre.cur(), bp.cur(), mid.evs(), ev, n0);
+                lemma_no_meta_push(mid.evs(), ev, n0);
                 lemma_off_mono(bp.toks(), 0, pre.cur()); lemma_off_mono(bp.toks(), pre.cur(), bp.cur());
                 lemma_ordered_push(mid.evs(), ev, n0, bp.toks()[0].span.s(), pre.off(), bp.off());
             }
@@ -2235,6 +2266,7 @@ after `let text = bp.text(start, tokens);`:
             let ghost mid2 = *bp;
 after `bp.event(Event::Text(text));`:
                 proof {
+                    lemma_no_meta_push(mid2.evs(), Event::Text(text), n0);
                     lemma_grown_push(mid2.evs(), Event::Text(text));
                     lemma_grown_trans(bp.evs(), mid2.evs(), old(bp).evs());
                 }
@@ -2259,6 +2291,7 @@ before `bp.event(Event::End(BlockKind::Step));`:
 after `bp.event(Event::End(BlockKind::Step));`:
     proof {
         lemma_grown_push(fin.evs(), Event::End(BlockKind::Step));
+        lemma_no_meta_push(fin.evs(), Event::End(BlockKind::Step), n0);
         lemma_grown_trans(bp.evs(), fin.evs(), old(bp).evs());
         lemma_covered_grown(bp.toks(), fin.cur(), fin.evs(), bp.evs(), n0);
         lemma_ordered_push(fin.evs(), Event::End(BlockKind::Step), n0, bp.toks()[0].span.s(), fin.off(), fin.off());
@@ -2306,6 +2339,7 @@ spec:
     ensures final(bp).wf(), final(bp).same(old(bp)),
         final(bp).cur() == final(bp).toks().len(),    // [C03] [C05] the whole block is consumed (finish() must not panic)
         ev_grown(final(bp).evs(), old(bp).evs()),
+        no_meta_since(final(bp).evs(), old(bp).evs().len() as int),     // [C02] steps and paragraphs never produce a metadata entry
         // [C05] a block that is not a `>` text paragraph: every letter and digit is covered by an event of this call
         old(bp).toks()[0].kind != TokenKind::TextStep ==> covered(final(bp).toks(), final(bp).toks().len() as int, final(bp).evs(), old(bp).evs().len() as int),
 closure @ `|t| t.kind != T![newline]` `&Token` ret `b: bool`:
@@ -2321,12 +2355,15 @@ before `bp.consume_rest();`:
 /*@ fn src/parser/mod.rs parse_block
 tags C03 C05 C02
 inline filter 0
+attr #[verifier::spinoff_prover]
 spec:
     requires old(block).wf(), old(block).cur() == 0,
         old(block).toks().last().kind != TokenKind::Newline,
     ensures final(block).wf(), final(block).same(old(block)),
         final(block).cur() == final(block).toks().len(),    // [C03] [C05] the whole block is consumed (finish() must not panic)
         ev_grown(final(block).evs(), old(block).evs()),
+        // [C02] with a front matter (no old-style metadata) and the MODES extension off, a `>>` line is never a metadata entry
+        !old_style_metadata && !old(block).ext().has(Extensions::MODES) ==> no_meta_since(final(block).evs(), old(block).evs().len() as int),     // [C02]
         // [C05] every letter and digit of the block lies in the span of an event queued by this call, except in a `>` text
         //       paragraph and in a section whose name is blank (both drop blank texts: assumption on Text::is_text_empty)
         old(block).toks()[0].kind != TokenKind::TextStep && !(final(block).evs().last() is Section && final(block).evs().last()->name.is_none())
@@ -2337,16 +2374,21 @@ before `let meta_or_section = match block.peek() {`:
         requires *old(bp) == pre, pre.wf(), pre.cur() == 0
         ensures final(bp).wf(), final(bp).same(&pre), o.is_some() ==> final(bp).cur() == final(bp).toks().len(),
             only_diags(final(bp).evs(), pre.evs()), o.is_some() ==> covered_by(pre.toks(), o.unwrap()),
+            o.is_some() ==> old_style_metadata || pre.ext().has(Extensions::MODES),     // [C02] the filter lets an entry through only under one of the two
 before `if let Some(ev) = meta_or_section {`:
     let ghost mid = *block;
-    proof { assert(only_diags(mid.evs(), pre.evs())); }
+    proof { assert(only_diags(mid.evs(), pre.evs())); lemma_grown_refl(pre.evs()); lemma_no_meta_diags(mid.evs(), pre.evs(), pre.evs().len() as int); }
 after `block.event(ev);`:
         proof {
+            if !(ev is Metadata) { lemma_no_meta_push(mid.evs(), ev, pre.evs().len() as int); }
             lemma_grown_push(mid.evs(), ev); lemma_grown_trans(block.evs(), mid.evs(), pre.evs());
             if !(ev is Section && ev->name.is_none()) { lemma_covered_by_push(block.toks(), ev, mid.evs(), pre.evs().len() as int); }
         }
 after `parse_multiline_block(block);`:
         proof {
+            assert forall|k: int| pre.evs().len() <= k < block.evs().len() implies !((#[trigger] block.evs()[k]) is Metadata) by {
+                if k < mid.evs().len() { assert(block.evs().subrange(0, mid.evs().len() as int)[k] == block.evs()[k]); }
+            }
             lemma_grown_trans(block.evs(), mid.evs(), pre.evs());
             if pre.toks()[0].kind != TokenKind::TextStep { lemma_covered_from(block.toks(), block.toks().len() as int, block.evs(), mid.evs().len() as int, pre.evs().len() as int); }
         }
@@ -2513,6 +2555,7 @@ impl<'i, T> PullParser<'i, T> where T: Iterator<Item = Token> {
 tags C03 C05 C17
 ret r
 desugar_for 0
+attr #[verifier::spinoff_prover]
 spec:
         requires old(self).wf(),
         ensures final(self).wf(), final(self).ctx_same(old(self)), final(self).q() == old(self).q(),
@@ -2682,6 +2725,7 @@ after `bp.finish();`:
 tags C03 C05
 ret r
 desugar_for 1
+attr #[verifier::spinoff_prover]
 spec:
         requires old(self).wf(), toks_ok(old(self).rem()),
         ensures final(self).wf(), final(self).ctx_same(old(self)),
@@ -2909,6 +2953,7 @@ pub proof fn lemma_clean0<'i>(evs: Seq<Event<'i>>) ensures !clean_since_start(ev
 tags C03
 ret r
 desugar_for 0
+attr #[verifier::spinoff_prover]
 spec:
     requires events.obeys_prophetic_iter_laws(), events.decrease().is_some(),
         // the block grammar of the pull parser's event stream (parse_text_block queues only Text between Start and End(Text))
